@@ -189,7 +189,7 @@ class LockedFarmWorld(FarmWorld):
     # ------------------------------------------------------------ execution
     def exec(self, op):
         vm, A, k = self.vm, self.addr, op[0]
-        if k == "Time":
+        if k in ("Time", "Upgrade"):
             return FarmWorld.exec(self, op)
         if k == "Energy":
             _, u, amt, opt = op
@@ -323,6 +323,8 @@ def gen_op(rng, w):
         if kind < 0.93:
             return ["SetLockEpochs", who, rng.choice(listed * 2 + [100, 0])]
         return ["TopUp", log_amount(rng, 10 ** 9)]
+    if type(w).__name__ in ("FarmWorld", "LockedFarmWorld", "StakingPosWorld") and w.last["supply"] > 0 and rng.random() < 0.02:
+        return ["Upgrade"]          # only the base worlds (their derived worlds have their own observation code)
     if (w.cfg.get("boost") and w.last["utot"].get(c, 0) > 0 and w.acted.get(c, 0) < w.week() and sh["state"] == 1
             and rng.random() < 0.4):
         return ["ClaimBoosted", c]      # first operation of the user in a new week: this is where boosted rewards are due
